@@ -318,7 +318,8 @@ int SSL_read(SSL *ssl, void *buf, int num)
         int en = nondet_int(); __CPROVER_assume(en >= 0); xv_errno = en; xv_ssl_errno = en;
         xv_ssl_err = SSL_ERROR_SSL; xv_err_queue = 1; xv_ssl_last_ret = r; xv_ssl_close_seen = 0;
     } else if (num > 0 && r >= 1) {
-        __CPROVER_assume(r <= num);
+        /* A7: one SSL_read delivers at most one TLS record's plaintext (16384 bytes) */
+        __CPROVER_assume(r <= num && r <= 16384);
         __CPROVER_assume(!xv_rx_eof);
         __CPROVER_havoc_slice(buf, (size_t)r);
         if (xv_k >= xv_rx_off && xv_k < xv_rx_off + r)
